@@ -74,7 +74,7 @@ theorem foldAdd_spec (temps : List Sequence) (acc r : Sequence) (N : ℕ)
           simp only [List.getElem_cons_zero] at hp ⊢
           simp only [Nat.zero_mul, Nat.add_zero]
           have h1 := hright p hp
-          obtain ⟨en, hen⟩ := get?_some_of_mem_keys _ _ hp
+          obtain ⟨en, hen⟩ := get_some_of_mem_keys _ _ hp
           rw [hen] at h1 ⊢
           exact foldAdd_keeps_copy ts acc1 r h _ en h1
         | succ j =>
